@@ -61,6 +61,21 @@ def ob_info_tools(ctx, res):
     if "itemCount" not in b or b["itemCount"][1] != ["bigbed.item_count?"]:
         res.fail("info/bigbedinfo/itemCount", BI, "itemCount must be read with item_count()")
         ok = False
+    # region sizes are differences of header offsets: only meaningful (and only computable) for the usual region order
+    for tool, file in (("bigwiginfo", WI), ("bigbedinfo", BI)):
+        fn = ctx.ast.fn(file, "print_info")
+        raw = [n for n in walk_no_nested_fn(fn.body) if n.k == "binary" and n["op"] == "-" and re.search(r"header\.(full_index_offset|full_data_offset)", up(n))]
+        chk = [n for n in walk_no_nested_fn(fn.body) if n.k == "mcall" and n["method"] == "checked_sub" and re.search(r"header\.(full_index_offset|full_data_offset)", up(n))]
+        if raw:
+            res.fail("info/%s/region-sizes" % tool, raw[0],
+                     "`%s` subtracts header offsets assuming data < index < zoom data: on a valid file laid out differently (zoom data before the main index) it underflows - "
+                     "a panic before anything else is printed; compute the size only when it exists (checked_sub)" % up(raw[0]))
+            ok = False
+        elif len(chk) < 2:
+            res.fail("info/%s/region-sizes-missing" % tool, fn, "primaryDataSize / primaryIndexSize not found")
+            ok = False
+    if ok:
+        res.ok(WI, "both tools: primaryDataSize / primaryIndexSize are printed only when the offsets allow (checked_sub)")
     if ok:
         res.ok(WI, "bigwiginfo: basesCovered/mean/min/max/std from get_summary() (mean = sum/bases, std = sqrt((sumsq - sum^2/n)/(n-1))); --minmax prints min max")
         res.ok(BI, "bigbedinfo: same derivations under the *Depth labels; itemCount from item_count()")
